@@ -115,7 +115,15 @@ pub fn strategy(max_n: usize) -> impl Strategy<Value = Case> {
                 // only where the wide layer dominates what the process needs anyway
                 nofile_per_member: if n >= 24 && !listener { nofile_per_member } else { 0 },
                 // more than a pipe buffer (64 KiB) per member; kept to small groups
-                early_output: if n <= 12 { early_output } else { 0 },
+                // (and 100 KB per member in one of eight wide groups: megabytes arrive while the
+                // group is still being started)
+                early_output: if n <= 12 {
+                    early_output
+                } else if gp % 8 == 5 {
+                    100_000
+                } else {
+                    0
+                },
                 undefined_member: gp % 4 == 0,
                 big_args: gp % 5 == 1,
                 quick_members: gp % 3 == 2,
@@ -330,7 +338,7 @@ fn attempt(case: &Case, w: usize, timeout_ms: u64) -> Result<(bool, CaseInfo, Va
         return Ok((true, info, obs));
     }
     let Some(doc) = out.json() else {
-        if out.stderr_str().contains("Lock acquisition failed") {
+        if (out.stderr_str().contains("Lock acquisition failed") || out.stderr_str().contains("Text file busy")) {
             return inconclusive(format!("run produced no JSON: {}", out.brief()));
         }
         return viol_obs("c16.failed", "the rendezvous run ended without a result".into(), obs);
